@@ -200,8 +200,15 @@ class C06(Prop):
             # first (verbatim): that is the search for a concrete uncompilable result
             focus = []
             # pointer-typed models first: they are where pasted qualifiers go wrong
-            cands = sorted(ctx.get('stream_disagreements', []),
-                           key=lambda r: 0 if '*' in json.dumps((r.get('case') or {}).get('src', '')) else 1)
+            def suspicious(r):
+                c = r.get('case') or {}
+                cfg = c.get('cfg') or {}
+                pfx = cfg.get('prefix') or []
+                inner = (cfg.get('encapsulee') or [])[1:-1]
+                # pointer-typed models (pasted qualifiers) and prefixes that also name an inner model namespace
+                # (unqualified lookup) are where a deviating text is most likely not to compile
+                return 0 if ('*' in json.dumps(c.get('src', '')) or (pfx and pfx[0] in inner)) else 1
+            cands = sorted(ctx.get('stream_disagreements', []), key=suspicious)
             for r in cands:
                 c = r.get('case') or {}
                 info = getattr(self, '_infos', {}).get(case_hash([c.get('src'), c.get('cfg')]))
